@@ -97,7 +97,7 @@ def apply_spec(I, sp, args, kwargs):
     if sp.sig is None or sp.ret is None:
         raise OutOfReach('recursive spec %s needs sig/ret' % sp.name)
     r = spec_app(I, sp, args)
-    if sp.recursive and not sp.opaque and I.auto_unfold and not getattr(I, '_unfolding', 0):
+    if sp.recursive and not sp.opaque and I.auto_unfold and getattr(I, '_unfolding', 0) < I.config.get('unfold_depth', 1):
         unfold_spec(I, sp, args)
     return r
 
@@ -194,7 +194,7 @@ def pure_block(I, stmts, i):
 
 
 # ---- special forms -------------------------------------------------------------
-SPECIAL = ('old', 'pre', 'forall', 'exists', 'unfold', 'use', 'implies', 'ite', 'typeis')
+SPECIAL = ('old', 'pre', 'head', 'forall', 'exists', 'unfold', 'use', 'implies', 'ite', 'typeis')
 
 
 def in_contract(I):
@@ -215,6 +215,9 @@ def special_form(I, n):
         return eval_in_snapshot(I, n.args[0], I.entry_snapshot, params=True)
     if name == 'pre':
         snap = I.lookup('__loop_entry__')
+        return eval_in_snapshot(I, n.args[0], snap, params=False)
+    if name == 'head':
+        snap = I.lookup('__head__')
         return eval_in_snapshot(I, n.args[0], snap, params=False)
     if name in ('forall', 'exists'):
         return quantifier(I, name, n)
